@@ -132,7 +132,7 @@ var props = []*prop{
 	{
 		ID: "C03", Pkg: "c03", Level: "exploration",
 		Technique:   "property-based testing (rapid) over a specification grammar that is valid by construction, with rule-breaking edits whose documented message class is the expected outcome",
-		LevelText:   "Specifications generated from a typed grammar are accepted in all four configurations (continue-on-errors x strict path uniqueness); 27 kinds of single-rule-breaking edits (0..2 per case) must each produce an error, and with continue-on-errors the edit's own documented message; a control edit that breaks nothing must stay accepted.",
+		LevelText:   "Specifications generated from a typed grammar are accepted in all four configurations (continue-on-errors x strict path uniqueness); 32 kinds of single-rule-breaking edits (0..2 per case, chosen uniformly) must each produce an error, and with continue-on-errors the edit's own documented message; a control edit that breaks nothing must stay accepted.",
 		LevelNote:   "Trusted: the reading of the documented rules encoded in internal/gen/spec.go and specedit.go (calibrated: unedited documents are accepted by the unchanged library), message classes matched against the exported format constants of spec_messages.go.",
 		Assumptions: trusted,
 		Builds:      plain,
@@ -142,7 +142,7 @@ var props = []*prop{
 	{
 		ID: "C04", Pkg: "c04", Level: "exploration",
 		Technique:   "stateful property-based testing (rapid) with fault-amplifying instrumentation: every object handed back to a pool is scribbled at that instant (verif hook); differential against the same calls with recycling off from reset pools; the repository's validatedebug pools detect double redeem",
-		LevelText:   "Generated histories mixing AgainstSchema, one-shot recycling schema/parameter/header validators and validate.Spec, with early-exit inputs; each step's outcome must equal the outcome of the same call computed beforehand with recycling off (public option and pools in swallow mode); returned errors are re-read at the end; half of the shards use the validatedebug pools. Scribbling (two polarities) turns any use-after-redeem or forgotten field into a deterministic outcome difference.",
+		LevelText:   "Generated histories mixing AgainstSchema, one-shot recycling schema/parameter/header validators and validate.Spec, with early-exit inputs; each step's outcome must equal the outcome of the same call computed beforehand with recycling off (public option and pools in swallow mode); returned errors are re-read at the end; half of the shards use the validatedebug pools. Scribbling (two polarities, off in a third of the cases) turns any use-after-redeem or forgotten field into a deterministic outcome difference; after every step the result object that all validations share (what a nil validator returns) must still read: no message, match count 1.",
 		LevelNote:   "Trusted: the 3-line redeem hook in each Redeem* function (tag verif), internal/scribble (writes only the redeemed object's own fields), the soundness argument of DESIGN.md 2.2 (a redeemed object may not be read; constructors assign every field).",
 		Assumptions: trusted,
 		Builds: []buildVariant{
@@ -155,7 +155,7 @@ var props = []*prop{
 	{
 		ID: "C05", Pkg: "c05", Level: "exploration",
 		Technique:   "property-based testing (rapid) of generated concurrent workloads under the Go race detector, with scribbling of redeemed objects and seeded yields at redeem points; differential against sequentially computed outcomes",
-		LevelText:   "2..64 goroutines released together, each issuing a generated sequence of AgainstSchema calls on shared reference-free schemas, Validate calls on a shared long-lived validator, whole-specification validations of its own document, value helpers incl. Pattern, plus a goroutine toggling SetContinueOnErrors; every call must return what it returned sequentially and the race detector must stay silent. Most shards run the -race binary, the rest a plain binary with more cases.",
+		LevelText:   "2..64 goroutines released together, each issuing a generated sequence of AgainstSchema calls on shared reference-free schemas, Validate calls on a shared long-lived validator, whole-specification validations of its own document, value helpers incl. Pattern, plus a goroutine toggling SetContinueOnErrors; every call must return what it returned sequentially and the race detector must stay silent; half of the Pattern calls use an expression the process has never compiled (expected answer from Go's regexp), so that first-time compilations happen while other goroutines look patterns up. Most shards run the -race binary, the rest a plain binary with more cases.",
 		LevelNote:   "Interleavings are sampled (the Go scheduler is not under the harness's control); amplifiers: happens-before race detection of executed access pairs, deterministic poisoning of redeemed objects, yields at redeem points, GOMAXPROCS in {1,2,4,16}. Failures needing a specific interleaving without any racing access or redeemed object remain out of reach; liveness is not addressed.",
 		Assumptions: trusted,
 		Builds: []buildVariant{
@@ -269,7 +269,7 @@ var props = []*prop{
 	{
 		ID: "C16", Pkg: "c16", Level: "exploration",
 		Technique:   "property-based differential testing (rapid) of parameter/header/items validators against an independent simple-schema evaluator over typed Go values",
-		LevelText:   "Generated simple-schema definitions (type, format, enum, numeric, string, array constraints, items nested to depth 4) x typed Go values of matching and non-matching kinds; valid <=> the independent evaluator says the value has the declared type and meets every constraint at every items level; nil is not validated.",
+		LevelText:   "Generated simple-schema definitions (type, format, enum, numeric, string, array constraints, items nested to depth 4) x typed Go values of matching and non-matching kinds; valid <=> the independent evaluator says the value has the declared type and meets every constraint at every items level; nil is not validated. Numbers stay within 2^53 except 64-bit integers under type integer with enum / uniqueItems only.",
 		LevelNote:   "Trusted: internal/simplemodel (independent of the library; unit-tested), strfmt.Default as the meaning of date/uuid/email. The open header finding is replicated exactly; array-valued enum members against differently typed Go slices and mixed-carrier uniqueItems are outside the domain and counted.",
 		Assumptions: trusted,
 		Builds:      plain,
